@@ -20,7 +20,7 @@ From Coq Require Import String.
 From Coq Require Import List NArith ZArith.
 From Dials Require Import Base.Outcome Base.Runes Reflect.Ty Stack.Overlay Text.ParseInt Text.ParseText
   Sources.Flatten Sources.FlattenSpec Sources.Env Sources.EnvSpec Sources.EnvProofs Sources.EnvFacts
-  Reflect.Ptrify Text.CaseConv Text.GoCamelSpec Sources.EnvGuards.
+  Reflect.Ptrify Text.CaseConv Text.GoCamelSpec Sources.EnvGuards Stack.StackSpec Sources.LayerBetween Sources.SourceLayers.
 Import ListNotations.
 Open Scope string_scope.
 Open Scope list_scope.
@@ -125,7 +125,45 @@ Theorem env_name_guard_for_ordinary_words : forall p ws,
   raw_parts p = Ok ws -> words_ok ws -> name_guard p = true.
 Proof. exact name_guard_words. Qed.
 
+(* End to end with C01: the environment source between a lower and a higher
+   layer.  For every config type inside C01's quantifier without **struct
+   fields and alias tags, every default and every two layers of the
+   pointerified type: dials' compose succeeds, is the by-name stacking, and
+   the effective leaves of the result (eff_fields: depth first, a leaf below a
+   nil struct pointer counting as its zero value) are, leaf by leaf (over),
+   the higher layer's leaf if set, else the source's leaf if set, else the
+   lower layer's if set, else the default - where the source sets a leaf
+   exactly when its variable is present, to the parse of that variable. *)
+Theorem env_layer_between : forall prefix fs env d lo hi src,
+  cfg_both fs -> alias_free env_alias_keys fs = true ->
+  Dials.Stack.Spine.spine_fields fs d = true ->
+  Dials.Stack.Spine.spine_fields (ptrify_fields fs) lo = true ->
+  Dials.Stack.Spine.spine_fields (ptrify_fields fs) hi = true ->
+  env_value prefix (ptrify_fields fs) env = Ok src ->
+  compose fs d [VStruct lo; VStruct src; VStruct hi] = Ok (stack fs d [VStruct lo; VStruct src; VStruct hi]) /\
+  eff_fields fs (Some (stack fs d [VStruct lo; VStruct src; VStruct hi])) =
+    over (ltys fs) (over (ltys fs) (over (ltys fs) (eff_fields fs (Some d)) (leaves_of (ptrify_fields fs) lo))
+                         (leaves_of (ptrify_fields fs) src))
+         (leaves_of (ptrify_fields fs) hi) /\
+  exists plan, env_plan prefix (ptrify_fields fs) = Ok plan /\
+    Forall2 (fun lv x => cast (lf_ty (fst lv)) (lookup_env env (snd lv)) = Ok x /\
+                         (is_set x = true <-> lookup_env env (snd lv) <> None))
+            plan (leaves_of (ptrify_fields fs) src).
+Proof. exact env_layer_between_l. Qed.
+
+(* ... `over` three times, at one leaf: *)
+Theorem layer_between_leaf : forall ts ds los ss his i t dv lo s hi,
+  nth_error ts i = Some t -> nth_error ds i = Some dv -> nth_error los i = Some lo ->
+  nth_error ss i = Some s -> nth_error his i = Some hi ->
+  nth_error (over ts (over ts (over ts ds los) ss) his) i =
+  Some (if negb (is_vnil hi) then unwrap t hi
+        else if negb (is_vnil s) then unwrap t s
+        else if negb (is_vnil lo) then unwrap t lo else dv).
+Proof. exact over3_nth. Qed.
+
 Print Assumptions env_name_spec.
+Print Assumptions env_layer_between.
+Print Assumptions layer_between_leaf.
 Print Assumptions env_supported_for_config_types.
 Print Assumptions env_name_guard_for_ordinary_words.
 Print Assumptions env_name_refuted.
